@@ -104,9 +104,9 @@ func (m *Machine) RunPath(c *Ctx, harness *ssa.Function, stubs map[string]*ssa.F
 			switch p.kind {
 			case "stop":
 				// path ended after a violation that holds for all inputs
-			case "pruned":
+			case "pruned", "loopcut":
 				if res.Status == "ok" {
-					res.Status = "pruned"
+					res.Status = p.kind
 				}
 				res.Detail = p.msg
 			default:
